@@ -538,6 +538,16 @@ func (s *MsgSpec) Sign(m *mail.Msg) error {
 			return m.SignWithKeypair(k.ECKeyI, k.ECCertI, inter)
 		}
 		return m.SignWithKeypair(k.ECKey, k.ECCert, nil)
+	case "rsa-ca384", "ecdsa-ca384":
+		// leaves whose own certificate is signed with SHA-384 (issued by a P-384 CA); the CMS signature stays SHA-256
+		var i384 *x509.Certificate
+		if s.WithInt {
+			i384 = k.Inter384Cert
+		}
+		if s.SMIME == "rsa-ca384" {
+			return m.SignWithKeypair(k.RSAKey384, k.RSACert384, i384)
+		}
+		return m.SignWithKeypair(k.ECKey384, k.ECCert384, i384)
 	case "ed25519-unsupported":
 		// accepted by SignWithKeypair, but the signer supports RSA and ECDSA only: rendering fails before the first byte
 		return m.SignWithKeypair(k.EdKey, k.EdCert, nil)
@@ -566,6 +576,14 @@ func (k *KeySet) TLSCert(kind string, withInt bool) *tls.Certificate {
 		c = &tls.Certificate{Certificate: [][]byte{k.ECCertI.Raw, k.InterCert.Raw}, PrivateKey: k.ECKeyI, Leaf: k.ECCertI}
 	case kind == "ecdsa":
 		c = &tls.Certificate{Certificate: [][]byte{k.ECCert.Raw}, PrivateKey: k.ECKey, Leaf: k.ECCert}
+	case kind == "rsa-ca384" && withInt:
+		c = &tls.Certificate{Certificate: [][]byte{k.RSACert384.Raw, k.Inter384Cert.Raw}, PrivateKey: k.RSAKey384, Leaf: k.RSACert384}
+	case kind == "rsa-ca384":
+		c = &tls.Certificate{Certificate: [][]byte{k.RSACert384.Raw}, PrivateKey: k.RSAKey384, Leaf: k.RSACert384}
+	case kind == "ecdsa-ca384" && withInt:
+		c = &tls.Certificate{Certificate: [][]byte{k.ECCert384.Raw, k.Inter384Cert.Raw}, PrivateKey: k.ECKey384, Leaf: k.ECCert384}
+	case kind == "ecdsa-ca384":
+		c = &tls.Certificate{Certificate: [][]byte{k.ECCert384.Raw}, PrivateKey: k.ECKey384, Leaf: k.ECCert384}
 	}
 	k.tlsCerts[id] = c
 	return c
@@ -601,6 +619,13 @@ type KeySet struct {
 	ECCert, ECCertI     *x509.Certificate
 	EdKey               ed25519.PrivateKey
 	EdCert              *x509.Certificate
+	// a second intermediate CA with a P-384 key: the leaves it issues are signed ecdsa-with-SHA384
+	Inter384Cert *x509.Certificate
+	Inter384Key  *ecdsa.PrivateKey
+	RSAKey384    *rsa.PrivateKey
+	RSACert384   *x509.Certificate
+	ECKey384     *ecdsa.PrivateKey
+	ECCert384    *x509.Certificate
 
 	tlsMu    sync.Mutex
 	tlsCerts map[string]*tls.Certificate
@@ -654,6 +679,12 @@ func Keys() *KeySet {
 		var edPub ed25519.PublicKey
 		edPub, k.EdKey, _ = ed25519.GenerateKey(rand.Reader)
 		k.EdCert = mk("ed25519 leaf", false, edPub, k.RootKey, k.RootCert, 7)
+		k.Inter384Key, _ = ecdsa.GenerateKey(elliptic.P384(), rand.Reader)
+		k.Inter384Cert = mk("verif intermediate p384", true, &k.Inter384Key.PublicKey, k.RootKey, k.RootCert, 8)
+		k.RSAKey384, _ = rsa.GenerateKey(rand.Reader, 2048)
+		k.RSACert384 = mk("rsa leaf via p384 intermediate", false, &k.RSAKey384.PublicKey, k.Inter384Key, k.Inter384Cert, 9)
+		k.ECKey384, _ = ecdsa.GenerateKey(elliptic.P256(), rand.Reader)
+		k.ECCert384 = mk("ec leaf via p384 intermediate", false, &k.ECKey384.PublicKey, k.Inter384Key, k.Inter384Cert, 10)
 		keys = k
 	})
 	return keys
